@@ -8,20 +8,25 @@
      df       1 = the code as it is (drain, then scan), 0 = the scan-before-drain variant
      n        number of async handles
      e0       initial eventfd counter
-     lscript  R (uv_run ONCE) | D (uv_run DEFAULT) | C<h> (uv_close)
+     lscript  R (uv_run ONCE) | D (uv_run DEFAULT) | N (uv_run NOWAIT) | C<h> (uv_close) | S (uv_stop)
      senders  scripts separated by '|', each a list of handle numbers
-     beh      '|'-separated: handles the k-th callback closes
+     beh      '|'-separated: what the k-th callback does: <h> = uv_close(h), s = uv_stop()
      sig      '-' or "<tid of the signal sender>,<tid of the interrupted thread>"
      tids     the thread ids the harness actually ran, in order
    The result line has the same format as the harness output (harness/c09_async.c). *)
 
 let nat_list s = List.map (fun t -> nat_of_int (int_of_string t)) (split_on ' ' s)
 
+let cb_list s =
+  List.map (fun t -> if t = "s" then CbStop else CbClose (nat_of_int (int_of_string t))) (split_on ' ' s)
+
 let parse_lscript s =
   List.map (fun t ->
     match t.[0] with
     | 'R' -> OpRun false
     | 'D' -> OpRun true
+    | 'N' -> OpNowait
+    | 'S' -> OpStop
     | 'C' -> OpClose (nat_of_int (int_of_string (String.sub t 1 (String.length t - 1))))
     | _ -> failwith ("bad loop op " ^ t)) (split_on ' ' s)
 
@@ -33,7 +38,7 @@ let parse_case (line : string) : case =
   | hooks :: df :: n :: e0 :: lscript :: senders :: beh :: sg :: rest ->
     let n = int_of_string n in
     let scripts = List.map nat_list (String.split_on_char '|' senders) in
-    let beha = Array.of_list (List.map nat_list (String.split_on_char '|' beh)) in
+    let beha = Array.of_list (List.map cb_list (String.split_on_char '|' beh)) in
     let behf k = let k = int_of_nat k in if k < Array.length beha then beha.(k) else [] in
     let sigt = if sg = "-" || sg = "" then None else
       (match String.split_on_char ',' sg with
@@ -187,7 +192,7 @@ let enum_case (line : string) : unit =
    micro-steps); prints "accept" or "reject@<index of the first token not matched>". *)
 (* ---------------------------------------------------------------------- *)
 type key = { kh : (bool * string * int * bool * string * string * string * string) list;
-             ks : (spc * nat list) list; kl : lpc * lop list * nat list * nat list * bool * bool * nat * nat list;
+             ks : (spc * nat list) list; kl : lpc * lop list * nat list * cbop list * bool * bool * nat * nat list * bool;
              klst : nat list; kefd : string }
 
 let key_of (c : case) (s : state) : key =
@@ -195,7 +200,7 @@ let key_of (c : case) (s : state) : key =
         (h.pending, string_of_z h.busy, (match h.hst with Open -> 0 | Closing -> 1), h.unl,
          string_of_z h.published, string_of_z h.seen, string_of_z h.sends_begun, string_of_z h.cb_count));
     ks = List.map (fun x -> (x.s_pc, x.s_script)) s.snd;
-    kl = (s.lp.l_pc, s.lp.l_script, s.lp.l_queue, s.lp.l_cbops, s.lp.l_incb, s.lp.l_mode, s.lp.l_cbk, s.lp.l_closing);
+    kl = (s.lp.l_pc, s.lp.l_script, s.lp.l_queue, s.lp.l_cbops, s.lp.l_incb, s.lp.l_mode, s.lp.l_cbk, s.lp.l_closing, s.lp.l_stop);
     klst = s.lst; kefd = string_of_z s.efd }
 
 (* observable tokens produced by one micro-step of tid from s to s' *)
